@@ -22,7 +22,7 @@ def gen_cases(ctx, ncase):
         force_cont = (ic % 5 == 4)     # a fifth of the cases: continuous moving neighbourhood with error variances and clustered targets
         dbin = gen_db(rng, ndim, nvar, n, nfex, p_na=(0.25 if hetero else 0.0), p_coord_na=(0.08 if rng.random() < .3 else 0.0),
                       with_verr=force_cont or rng.random() < .3, with_sel=rng.random() < .25)
-        calcul = [0] if (force_cont or rng.random() < .8) else [1] + [rng.choice([1, 2, 3]) for _ in range(ndim)]
+        calcul = [0] if (force_cont or rng.random() < .75) else [1] + [rng.choice([1, 2, 3, 4]) for _ in range(ndim)]
         if calcul[0] == 1 and nfex > 0: calcul = [0]     # block kriging needs a grid target (no external drift column there)
         m = 5
         if calcul[0] == 1:
@@ -144,6 +144,29 @@ def check_oracle(py, t):
             if r: return r
     return cmp(t['c00'], [0] * ndim, 'target-target')
 
+def check_discretisation(py, t):
+    """block kriging: the first set of discretisation points must be the regular nd_1 x ... x nd_k discretisation of the cell
+    (centres of the sub-cells, each exactly once), the second one a point of each sub-cell; computed here from the definition,
+    independently of DbGrid::getDiscretizedBlock"""
+    if py['calcul'][0] != 1 or not t.get('discs'): return None
+    ndim = py['ndim']; nds = py['calcul'][1:]; dx = [Fraction(x) for x in py['dbout']['grid']['dx']]
+    import itertools
+    expect = sorted(tuple(dx[d] * (Fraction(2 * j[d] + 1, 2 * nds[d]) - Fraction(1, 2)) for d in range(ndim))
+                    for j in itertools.product(*[range(n) for n in nds]))
+    d1 = [tuple(undy(x) for x in v) for v in t['discs'][0]]; d2 = [tuple(undy(x) for x in v) for v in t['discs'][1]]
+    if len(d1) != len(expect): return 'the first set holds %d points, the regular discretisation %s has %d' % (len(d1), nds, len(expect))
+    got = sorted(d1)
+    for a, b in zip(got, expect):
+        if any(abs(float(x) - float(y)) > 1e-12 * (1 + abs(float(y))) for x, y in zip(a, b)):
+            return 'the first set of discretisation points is not the regular %s discretisation of the cell %s: got %s, expected %s' % (
+                nds, [float(x) for x in dx], [[float(x) for x in p_] for p_ in got], [[float(x) for x in p_] for p_ in expect])
+    # second (randomised) set: one point in each sub-cell
+    cells = sorted(tuple(int((float(p_[d]) / float(dx[d]) + 0.5) * nds[d] // 1) for d in range(ndim)) for p_ in d2)
+    full = sorted(itertools.product(*[range(n) for n in nds]))
+    if cells != full:
+        return 'the second (randomised) set does not hold one point per sub-cell of the %s discretisation: sub-cells hit %s' % (nds, cells)
+    return None
+
 def cond_number(A):
     """inf-norm condition number of the model's exact LHS, inverse by floating Gauss-Jordan with partial pivoting (tolerance scaling only)"""
     n = len(A)
@@ -213,6 +236,12 @@ def run(ctx):
                 ctx.violation('target-order:' + site_key(py), 'target %d processed after the other targets gives (estimate, stdev, varZ per variable) %s; alone on a fresh system %s' % (t['it'], [None if x is None else float(x) for x in seq], [None if x is None else float(x) for x in al]),
                               {'impl_case': sx_str(cases[ci][1]), 'target': t['it']})
                 continue
+        dsc = check_discretisation(py, t)
+        if dsc:
+            nout += 1; found_input = True
+            ctx.violation('block-discretisation:' + ('equal' if len(set(py['calcul'][1:])) == 1 else 'unequal') + '-ndiscs:%dD' % py['ndim'],
+                          'block kriging does not average over the regular discretisation of the block: ' + dsc, {'impl_case': sx_str(cases[ci][1]), 'target': t['it']})
+            continue
         orc = check_oracle(py, t)
         if orc:
             nout += 1; found_input = True
